@@ -339,7 +339,7 @@ theorem getReference_spec (ra : Bool) (ff : FF) (rn : String) (mu mods : Option 
     (h : getReferenceGen ra ff rn mu mods = .ok ref) :
     ∃ name b0 added, targetName rn mu = .ok name ∧ ff.blocks.lookup name = some b0 ∧
       ref.nodes.map shape = (b0.nodes ++ added).map shape ∧ (∀ a ∈ added, a.ptm = some true) ∧
-      added.map (·.name) = addedNames ff (mods.getD []) := by
+      added.map (·.name) = addedNames ff (dedupReq (mods.getD [])) := by
   unfold getReferenceGen at h
   cases ht : targetName rn mu with
   | error e => simp [ht] at h
@@ -349,12 +349,12 @@ theorem getReference_spec (ra : Bool) (ff : FF) (rn : String) (mu mods : Option 
     | none => simp [hb] at h
     | some b0 =>
       simp only [hb] at h
-      cases ha : applyMods ff (mods.getD []) b0 with
+      cases ha : applyMods ff (dedupReq (mods.getD [])) b0 with
       | error e => simp [ha] at h
       | ok b1 =>
         simp only [ha] at h
         obtain ⟨hn, added, hnodes, hptm⟩ := applyMods_names ff _ b0 b1 ha
-        have hadded : added.map (·.name) = addedNames ff (mods.getD []) := by
+        have hadded : added.map (·.name) = addedNames ff (dedupReq (mods.getD [])) := by
           have : names b1 = names b0 ++ added.map (·.name) := by simp [names, hnodes]
           rw [this] at hn
           exact List.append_cancel_left hn
@@ -386,7 +386,7 @@ theorem getReference_resname (ff : FF) (rn t : String) (rest : List String) (mod
     | none => simp [hb] at h
     | some b0 =>
       simp only [hb] at h
-      cases ha : applyMods ff (mods.getD []) b0 with
+      cases ha : applyMods ff (dedupReq (mods.getD [])) b0 with
       | error e => simp [ha] at h
       | ok b1 =>
         simp only [ha, if_true, Except.ok.injEq] at h
